@@ -560,8 +560,8 @@ fn run_history<B: Backend>(args: &Args, m41: &mut Monitor, m42: &mut Monitor, la
     let miri = is_miri(args);
     let cfg = HistCfg {
         readers: if miri { 2 } else { args.get_u64("readers", 6) as usize },
-        writer_ops: if miri { args.n(1600, 4000) } else { args.n(90_000, 1_500_000) },
-        reader_ops: if miri { args.n(4000, 10_000) } else { args.n(500_000, 8_000_000) },
+        writer_ops: if miri { args.n(1600, 4000) } else { args.n(90_000, 500_000) },
+        reader_ops: if miri { args.n(4000, 10_000) } else { args.n(500_000, 2_500_000) },
         cap: if miri { 4 } else { args.get_u64("cap", 12) as usize },
         jitter: args.get_u64("jitter", if miri { 2 } else { 3 }),
         quiesce_every: if miri { 5 } else { 16 },
@@ -909,7 +909,7 @@ where
 {
     let miri = is_miri(args);
     let threads = if miri { 3 } else { args.get_u64("threads", 6) as usize };
-    let ops = if miri { args.n(3000, 8000) } else { args.n(500_000, 8_000_000) };
+    let ops = if miri { args.n(3000, 8000) } else { args.n(500_000, 4_000_000) };
     let slots_n = if miri { 2 } else { 4 };
     let seed = args.seed;
     let total = (threads as u64 * ops / 4 + 64) as usize;
@@ -1101,6 +1101,11 @@ fn main() -> ExitCode {
         eprintln!("note: schedule-dependent finding; re-running the seeded workload (seed {})", args.seed);
     }
     let miri = is_miri(&args);
+    // Natively a double free / use-after-free in the code under test aborts the process, which
+    // no in-process capture survives: run the workload in a child and judge its exit status.
+    if !miri && args.get("child").is_none() {
+        return supervise(&args, &["C40", "C41", "C42", "C44"]);
+    }
     let backend = args.get("backend").unwrap_or(if miri || args.engine == "tsan" { "mem" } else { "both" }).to_string();
     let use_noop = args.get("cs").map(|c| c == "noop").unwrap_or(miri);
     let want_b = |b: &str| backend == "both" || backend == b;
